@@ -4,7 +4,7 @@ Exit codes of a check:  0 = property held on everything explored (KNOWN-FINDING 
 allowed), 1 = VIOLATION (real code broke the property; replay file written),
 2 = machinery problem (build failure, TLC error, timeout, vacuity) - never a verdict.
 """
-import json, os, re, shutil, subprocess, sys, tempfile, time, glob, hashlib
+import json, os, re, shutil, subprocess, sys, tempfile, time, glob, hashlib, threading
 
 VERIF = os.path.dirname(os.path.dirname(os.path.abspath(__file__)))
 REPO = os.environ.get("VERIF_REPO", "/repo")
@@ -70,11 +70,17 @@ class TlcResult:
         self.timeout = False
 
 
+_spec_lock = threading.Lock()
+
+
 def _scratch_spec_dir(ctx, name):
     """TLC litters next to the spec: work on a scratch copy of spec/."""
     d = os.path.join(ctx.tmp, "spec_" + name)
-    if not os.path.isdir(d):
-        shutil.copytree(SPEC, d)
+    with _spec_lock:
+        if not os.path.isdir(d):
+            tmpd = d + ".part"
+            shutil.copytree(SPEC, tmpd)
+            os.rename(tmpd, d)
     return d
 
 
@@ -165,14 +171,13 @@ def tlc_must_pass(ctx, *a, **kw):
 
 
 def tlc_printed(out, tag):
-    """Extract values printed with PrintT(<<"TAG", ToJson(x)>>) -> list of parsed JSON."""
+    """Extract values printed with PrintT(<<"TAG", ToJson(x)>>) -> list of parsed JSON.
+    TLC may wrap a long tuple after the comma; both layouts are accepted."""
     res = []
-    pat = re.compile(r'^<<"%s", "(.*)">>$' % re.escape(tag))
-    for line in out.splitlines():
-        m = pat.match(line)
-        if m:
-            s = m.group(1).replace('\\"', '"').replace("\\\\", "\\")
-            res.append(json.loads(s))
+    pat = re.compile(r'^<<"%s",[ \t]*\n?[ \t]*"(.*)"[ \t]*>>[ \t]*$' % re.escape(tag), re.M)
+    for m in pat.finditer(out):
+        s = m.group(1).replace('\\"', '"').replace("\\\\", "\\")
+        res.append(json.loads(s))
     return res
 
 
